@@ -18,7 +18,8 @@ RULE = (
     "'t' = one TrampolineScheduler() instance shared by all threads) with an action that logs start, executes `body` "
     "(more operations: nested schedules, cancels, work) and logs end; ['x', ref] = dispose the disposable returned for "
     "schedule operation number ref (if that call has returned); ['w', ms] = let ms of fake time pass; single-thread programs "
-    "only: kind 'ens' = ensure_trampoline(action), ['q', on] = record schedule_required(), ['r'] = raise inside the action. "
+    "only: kind 'ens' = ensure_trampoline(action), ['q', on] = record schedule_required(), ['r'] / ['r', 'base' | 'exit' | 'gen'] = leave the "
+    "action through an Exception / a BaseException subclass / SystemExit / GeneratorExit. "
     "Times are the "
     "Engine-DET fake clock (vlib/det.py); a timed wait of the trampoline advances it. "
     "tree-enum / tree: ONE thread, run in the calling thread (DET free mode): every ordered forest with <=3 (quick) / <=4 "
@@ -44,7 +45,7 @@ RULE = (
     "disposable was never disposed has finished; for the shared 't' with two threads the same at the end of the run; "
     "(8) no deadlock, no escaped exception; (9) single thread: schedule_required() is False exactly while an action of that "
     "trampoline is running (docstring); ensure_trampoline() called inside a running action of that trampoline runs its action "
-    "inline before returning, otherwise it behaves like schedule(); an exception raised by an action reaches the outermost "
+    "inline before returning, otherwise it behaves like schedule(); an exception raised by an action (Exception or any other BaseException) reaches the outermost "
     "schedule call (repo tests), what was pending then is unconstrained, and afterwards the trampoline works again (the next "
     "outermost call runs its action before returning, schedule_required() is True). "
     "Non-trivial: single thread = a schedule call made from inside a running action; two threads = a schedule call on the "
@@ -76,6 +77,16 @@ number, now_us = schedrun.number, schedrun.now_us
 
 class Boom(Exception):
     """Raised by ['r'] inside an action."""
+
+
+class BoomBase(BaseException):
+    """Raised by ['r', 'base']: a BaseException that is not an Exception (like asyncio's CancelledError)."""
+
+
+# what an action may leave through: ['r'] Exception, ['r', 'base'] a BaseException subclass, ['r', 'exit'] SystemExit (a
+# worker calling sys.exit()), ['r', 'gen'] GeneratorExit
+BOOM_KINDS = {"exc": Boom, "base": BoomBase, "exit": SystemExit, "gen": GeneratorExit}
+BOOMS = tuple(BOOM_KINDS.values())
 
 
 class World:
@@ -115,7 +126,7 @@ class World:
                     self._ev("start", sid)
                     try:
                         self.run_ops(body, kid_ids, depth + 1)
-                    except Boom:
+                    except BOOMS:
                         self._ev("abort", sid)
                         raise
                     self._ev("end", sid)
@@ -134,7 +145,7 @@ class World:
                         dsp = sch.ensure_trampoline(action)
                     else:
                         raise HarnessError(f"bad kind {kind}")
-                except Boom:
+                except BOOMS:
                     if depth == 0:
                         self._ev("exc", sid)  # the exception of an action reached the outermost schedule call
                         continue
@@ -157,8 +168,9 @@ class World:
                 det.CEvent().wait(op[1] / 1000.0)
             elif k == "r":
                 if depth > 0:
-                    self._ev("raise", -1)
-                    raise Boom()
+                    kind = op[1] if len(op) > 1 else "exc"
+                    self._ev("raise", kind)
+                    raise BOOM_KINDS[kind]("boom")
             elif k == "q":
                 self._ev("q", (op[1], bool(self._sched(op[1]).schedule_required())))
             else:
@@ -198,6 +210,7 @@ def analyse(world, complete=True):
     parent = {}  # inline action -> the action it interrupted
     excused = set()  # pending when an action's exception left the outermost call: unconstrained afterwards
     had_exc = False
+    raised_kind = None
     in_flight = False  # an action raised and the exception has not reached the outermost call yet
     bad = None
 
@@ -226,6 +239,7 @@ def analyse(world, complete=True):
                 outer[sid] = open_act.get(g) is None
                 if outer[sid] and had_exc:
                     facts.add("outermost-call-after-raise")
+                    facts.add("outermost-call-after-raise:" + str(raised_kind))
             if on != "t" and any(a is not None and gg[0] != "t" and gg != g and gg[1] != tid for gg, a in open_act.items()):
                 facts.add("both-current-thread-active")
             if due[sid] > clk:
@@ -241,6 +255,7 @@ def analyse(world, complete=True):
                 in_flight = False
                 had_exc = True
                 facts.add("raise-propagated")
+                facts.add("raise-propagated:" + str(raised_kind))
                 excused.update(y for y in range(n) if call[y] is not None and start[y] is None)
                 continue
             if kind == "excn":
@@ -289,6 +304,7 @@ def analyse(world, complete=True):
             ends_by_group.setdefault(g, []).append(i)
         elif kind == "raise":
             in_flight = True
+            raised_kind = sid
         elif kind == "q":
             on, result = sid
             busy = open_act.get(("t",) if on == "t" else (on, tid)) is not None
@@ -478,6 +494,9 @@ def _tree_enum2(tier):
                         if path:
                             yield {"threads": [_insert(ops, path, idx, ["r"])]}
                             yield {"threads": [_insert(_insert(ops, path, idx, ["r"]), (), len(ops), ["q", on])]}
+                            # the same with an exception that is not an Exception, followed by one more outermost schedule
+                            rk = ["r", ("base", "exit", "gen")[(idx + len(path) + n) % 3]]
+                            yield {"threads": [_insert(_insert(_insert(ops, path, idx, rk), (), len(ops), ["s", on, "now", 0, []]), (), len(ops) + 1, ["q", on])]}
 
 
 def _tree_enum_all(tier):
@@ -492,7 +511,7 @@ _KD = [["now", 0], ["now", 0], ["now", 0], ["rel", 0], ["rel", -1], ["rel", 1], 
 def _ops(depth, ons, width, kd=_KD, extras=False):
     other = [st.tuples(st.just("x"), st.integers(0, 11)).map(list), st.tuples(st.just("w"), st.sampled_from([1, 2, 3])).map(list)]
     if extras:  # single-thread only: raise inside an action, schedule_required(), ensure_trampoline()
-        other += [st.sampled_from([["r"], ["w", 1], ["w", 2]]), st.tuples(st.just("q"), st.sampled_from(ons)).map(list)]
+        other += [st.sampled_from([["r"], ["r", "base"], ["r", "exit"], ["r", "gen"], ["w", 1], ["w", 2], ["w", 1], ["w", 3]]), st.tuples(st.just("q"), st.sampled_from(ons)).map(list)]
         kd = kd + [["ens", 0], ["ens", 0]]
     if depth == 0:
         body = st.just([])
